@@ -81,7 +81,7 @@ func (g *Gen) verifyFunction(fn *ssa.Function, sp *FuncSpec) *FnCtx {
 		fr.bindAddr = append(fr.bindAddr, &Addr{Kind: aCell, Obj: v.S})
 		fc.define(sx(">", v.S, "0"))
 	}
-	// requires
+	// requires (evaluated in the caller-visible entry state, before entry ghost assignments)
 	env := fr.specEnv(entry, nil, nil)
 	env.old = entry
 	var reqs []string
@@ -93,7 +93,19 @@ func (g *Gen) verifyFunction(fn *ssa.Function, sp *FuncSpec) *FnCtx {
 		reqs = append(reqs, f)
 		fc.assume(f, "precondition "+c.Text)
 	}
-	fr.run(entry, "true")
+	runSt := entry
+	for _, gi := range sp.GhostInits {
+		names := fc.g.modEntryNames(fc, sp, "ghost "+gi[0])
+		ve, err := parseSExpr(gi[1])
+		if err != nil || len(names) != 1 {
+			fc.errs = append(fc.errs, "ghostinit: cannot parse "+gi[0])
+			continue
+		}
+		vv := env.with(runSt).tr(ve)
+		runSt = runSt.setRaw(names[0], vv.S)
+	}
+	fr.run(runSt, "true")
+	fr.entrySt = entry
 
 	// returns
 	rnames := sp.Results
@@ -136,14 +148,21 @@ func (g *Gen) verifyFunction(fn *ssa.Function, sp *FuncSpec) *FnCtx {
 				genv.names["result"] = res[0]
 			}
 			for _, gs := range sp.GhostSets {
-				ke, err1 := parseSExpr(gs[1])
 				ve, err2 := parseSExpr(gs[2])
-				if err1 != nil || err2 != nil {
+				names := fc.g.modEntryNames(fc, sp, "ghost "+gs[0])
+				if err2 != nil || len(names) != 1 {
 					fc.errs = append(fc.errs, "ghostset: cannot parse "+gs[0])
 					continue
 				}
-				names := fc.g.modEntryNames(fc, sp, "ghost "+gs[0])
-				if len(names) != 1 {
+				if gs[1] == "" {
+					vv := genv.with(r.state).tr(ve)
+					r.state = r.state.setRaw(names[0], vv.S)
+					genv.state = r.state
+					continue
+				}
+				ke, err1 := parseSExpr(gs[1])
+				if err1 != nil {
+					fc.errs = append(fc.errs, "ghostset: cannot parse "+gs[0])
 					continue
 				}
 				kv := genv.with(r.state).tr(ke)
